@@ -106,6 +106,10 @@ def files(run, rng, quick):
     for nops, maxb in sizes:
         for _ in range(2 if quick else 6):
             sessions.append(refexp.gen_session(rng, nops=nops, maxes=[maxb], nbps=1, stats_p=0.1))
+    # small files whose preamble uses everything a preamble can hold (several parameter sets, collection parameters, optional
+    # members, lists, texts): their header is cut at EVERY byte
+    for _ in range(4 if quick else 12):
+        sessions.append(refexp.gen_session(rng, nops=rng.randrange(2, 12), maxes=[3], nbps=rng.choice([2, 3]), simple_bp=False, stats_p=0.3))
     res = E.run_sessions(run, sessions)
     out = []
     for s, r in zip(sessions, res):
@@ -171,6 +175,8 @@ def check(run):
             for d in range(-16, 17):
                 if 0 <= c + d <= len(data):
                     cuts.add(c + d)
+        if hdr_end <= 6000:
+            cuts.update(range(0, hdr_end + 1))          # every byte of the file header and preamble
         for _ in range(60 if quick else 1200):
             cuts.add(rng.randrange(0, len(data) + 1))
         cuts = sorted(cuts)
